@@ -6,7 +6,8 @@ from ..core import Part, pmap, NCPU, server_bin
 from ..client import ServerDied, Timeout, FrameError
 from .. import gen, feat, layout, reflex, fmt, lspmodel
 
-LITERALS = ["007", "0x0a", "0x0A", "0xff", "'''", "'\\n'", "'\\'", "4294967295", "4294967296", "0xFFFFFFFF", "0x100000000", "0", "00", "' '", "'/'"]
+LITERALS = ["007", "0x0a", "0x0A", "0xff", "'''", "'\\n'", "'\\'", "4294967295", "4294967296", "0xFFFFFFFF", "0x100000000", "0", "00", "' '", "'/'",
+            "'\t'", "'\r'", "'\x0c'", "'\x00'", "'\x7f'", "'\"'"]      # raw control characters between the quotes: any single character is a char literal
 
 
 def sig_tokens(text):
